@@ -349,6 +349,7 @@ def load_findings(pid):
             try:
                 j = json.loads(line)
             except ValueError:
+                sys.stderr.write("known_findings.jsonl: a line that is not JSON is ignored: %s...\n" % line[:60])
                 continue
             if j.get("property") == pid and j.get("status") == "open":
                 out.append(j)
